@@ -425,18 +425,64 @@ func CollectionOf(v any, adsl ...func()) *expr.ResultTypeExpr {
 //		})
 //	})
 func Reference(t expr.DataType) {
+	if t == nil {
+		eval.ReportError("argument of Reference must be an object, got nil")
+		return
+	}
 	if !expr.IsObject(t) {
 		eval.ReportError("argument of Reference must be an object, got %s", t.Name())
 		return
 	}
 	switch def := eval.Current().(type) {
 	case *expr.ResultTypeExpr:
+		if refersTo(t, def.AttributeExpr) {
+			eval.ReportError("argument of Reference refers to the type being defined (directly or through its own Extend or Reference)")
+			return
+		}
 		def.References = append(def.References, t)
 	case *expr.AttributeExpr:
+		if refersTo(t, def) {
+			eval.ReportError("argument of Reference refers to the type being defined (directly or through its own Extend or Reference)")
+			return
+		}
 		def.References = append(def.References, t)
 	default:
 		eval.IncompatibleDSL()
 	}
+}
+
+// refersTo returns true if t is the user type described by att or extends or
+// references it, directly or not. Such a cycle has no meaning and would cause
+// infinite recursions when looking up the inherited attributes.
+func refersTo(t expr.DataType, att *expr.AttributeExpr) bool {
+	seen := make(map[*expr.AttributeExpr]struct{})
+	var visit func(dt expr.DataType) bool
+	visit = func(dt expr.DataType) bool {
+		ut, ok := dt.(expr.UserType)
+		if !ok {
+			return false
+		}
+		uatt := ut.Attribute()
+		if uatt == att {
+			return true
+		}
+		if _, ok := seen[uatt]; ok {
+			return false
+		}
+		seen[uatt] = struct{}{}
+		for _, b := range uatt.Bases {
+			if visit(b) {
+				return true
+			}
+		}
+		for _, r := range uatt.References {
+			if visit(r) {
+				return true
+			}
+		}
+		return false
+	}
+	return visit(t)
 }
 
 // Extend adds the parameter type attributes to the type using Extend. The
@@ -461,14 +507,26 @@ func Reference(t expr.DataType) {
 //	    Extend(CreateBottlePayload) // Adds attributes "name" and "vintage"
 //	})
 func Extend(t expr.DataType) {
+	if t == nil {
+		eval.ReportError("argument of Extend must be an object, got nil")
+		return
+	}
 	if !expr.IsObject(t) {
 		eval.ReportError("argument of Extend must be an object, got %s", t.Name())
 		return
 	}
 	switch def := eval.Current().(type) {
 	case *expr.ResultTypeExpr:
+		if refersTo(t, def.AttributeExpr) {
+			eval.ReportError("argument of Extend refers to the type being defined (directly or through its own Extend or Reference)")
+			return
+		}
 		def.Bases = append(def.Bases, t)
 	case *expr.AttributeExpr:
+		if refersTo(t, def) {
+			eval.ReportError("argument of Extend refers to the type being defined (directly or through its own Extend or Reference)")
+			return
+		}
 		def.Bases = append(def.Bases, t)
 	default:
 		eval.IncompatibleDSL()
